@@ -620,7 +620,14 @@ impl E {
                     F::Lower => Func::lower(it.next().unwrap()),
                     F::Upper => Func::upper(it.next().unwrap()),
                     F::Round => Func::round(it.next().unwrap()),
-                    F::Custom => Func::cust(a("MYFUNC")).args(it.collect::<Vec<_>>()),
+                    // the argument list in one call or argument by argument
+                    F::Custom => {
+                        if self.entry() % 2 == 0 {
+                            Func::cust(a("MYFUNC")).args(it.collect::<Vec<_>>())
+                        } else {
+                            it.fold(Func::cust(a("MYFUNC")), |f, x| f.arg(x))
+                        }
+                    }
                     F::Md5 => Func::md5(it.next().unwrap()),
                     F::Random => Func::random(),
                     F::RoundPrec => {
@@ -1198,7 +1205,7 @@ pub fn expr(d: Dialect, depth: u32, engine: bool) -> BoxedStrategy<E> {
                     .prop_map(move |(fi, args)| {
                         let mut fs = vec![F::Abs, F::Coalesce, F::IfNull, F::Greatest, F::Least, F::CharLength, F::Lower, F::Upper, F::Round, F::RoundPrec];
                         if !engine {
-                            fs.extend([F::Md5, F::Random, F::BitAndAgg, F::BitOrAgg]);
+                            fs.extend([F::Md5, F::Random, F::BitAndAgg, F::BitOrAgg, F::Custom]);
                             if d == Dialect::Postgres {
                                 fs.extend([
                                     F::PgToTsquery,
